@@ -66,7 +66,33 @@ func cSkeleton(csrc, fn string) string {
 	}
 	lines := strings.Split(body, "\n")
 	start := -1
+	// a coroutine: the statements are those between the `case 0:` of the resume
+	// switch (WUFFS_BASE__COROUTINE_SUSPENSION_POINT_0) and the last `goto ok;`
+	// (what follows stores the suspension point and the live variables — the
+	// subject of C09 / C10, not of the statement lowering)
+	coro := false
 	for i, l := range lines {
+		if strings.TrimSpace(l) == "WUFFS_BASE__COROUTINE_SUSPENSION_POINT_0;" {
+			coro = true
+			start = i + 1
+			end := -1
+			for k := len(lines) - 1; k > i; k-- {
+				if strings.TrimSpace(lines[k]) == "goto ok;" {
+					end = k
+					break
+				}
+			}
+			if end < 0 {
+				return "coroutine-without-goto-ok"
+			}
+			lines = lines[:end]
+			break
+		}
+	}
+	for i, l := range lines {
+		if coro {
+			break
+		}
 		if reLineComment.MatchString(l) {
 			start = i
 			break
@@ -130,6 +156,14 @@ func cSkeleton(csrc, fn string) string {
 			toks = append(toks, "{")
 		case strings.HasPrefix(s, "return ") || s == "return;":
 			toks = append(toks, "R")
+		case strings.HasPrefix(s, "WUFFS_BASE__COROUTINE_SUSPENSION_POINT("):
+			toks = append(toks, "P")
+		case s == "goto suspend;":
+			toks = append(toks, "G:s")
+		case s == "goto ok;":
+			toks = append(toks, "G:ok")
+		case s == "goto exit;":
+			toks = append(toks, "G:x")
 		default:
 			if m := reGoto.FindStringSubmatch(s); m != nil {
 				toks = append(toks, "G:"+itoa(num(m[1]))+":"+m[2][:1])
@@ -144,6 +178,9 @@ func cSkeleton(csrc, fn string) string {
 	}
 	if cur != "" {
 		toks = append(toks, "unterminated:"+slug(cur))
+	}
+	if coro {
+		toks = append(toks, "END")
 	}
 	if len(toks) == 0 {
 		return "-"
